@@ -15,6 +15,10 @@ var harnesses = map[string]func(){
 	"C18NoInput":      C18NoInput,
 	"C18Generate":     C18Generate,
 	"C15Run":          C15Run,
+	"C11MarkerSubstitution": C11MarkerSubstitution,
+	"C11ExtractComments":    C11ExtractComments,
+	"C13ImportTable":        C13ImportTable,
+	"C13ImportTable3":       C13ImportTable3,
 	"C19PatternMatcher":     C19PatternMatcher,
 	"C19PatternMatcherDeep": C19PatternMatcherDeep,
 	"C19ShouldSkip":         C19ShouldSkip,
